@@ -210,7 +210,7 @@ func c12FlipPositions(n int, restricted bool, stride int) []int {
 type c12Plan struct {
 	thorough   bool
 	masks      []int // xor masks applied at the (possibly restricted) positions of every tile
-	extraMasks []int // further masks, applied at the restricted positions only (all positions in logs of <= 4 leaves)
+	extraMasks []int // further masks, applied at the restricted positions only (all positions in logs of <= 8 leaves)
 	smallMasks []int // masks for checkpoints, SCTs and issuers (every position)
 	restrictAt int   // logs of >= restrictAt leaves get restricted positions for masks (0 = never)
 	stride     int
